@@ -18,6 +18,14 @@ automatic Finalize; one after the other or interleaved).  Every read is judged o
 the untouched interactions of the environment it came from, so anything a shortcut lets one environment's data do to
 another environment's actions/rewards (shared filter objects, tables, generators) is seen.  Densify(method='lookup')
 is given the smallest n_feats for which every single environment is inside its documented no-collision regime.
+
+Interactions are dicts and nothing else is promised about them: in most environments the generated interactions carry the
+same keys in DIFFERENT insertion orders (per interaction; see gen_layout) and some are plain dicts instead of Interaction
+objects.  The oracle reads every field by name on both sides, so a filter which files a value under a key by its position
+(transposing .values(), zipping against the first interaction's key list, ...) is seen as the wrong reward / feedback /
+logged reward / probability for an action.  For the signature only, a violating case is re-run with the constructors'
+layout: if it then holds the signature says .../interactions:keys-in-different-orders (or keys-not-in-constructor-order,
+plain-dict).
 """
 from collections import Counter
 
@@ -32,7 +40,10 @@ RULE  = ("a case is one seeded environment (interaction kind x action kind x rew
          "representation of the actions or rebuilt the reward object; ~28% of the cases are collections of 2-3 such "
          "environments (own or overlapping feature names / levels) in one Environments object, the chain applied through "
          "the shortcuts only, read in a generated order (again / raw / [] / iteration / interleaved), each read judged "
-         "against its own environment; distinct = distinct (member kinds, chain, read modes)")
+         "against its own environment; distinct = distinct (member kinds, chain, read modes); in ~64% of the environments the "
+         "interactions do not list their keys in the constructors' insertion order (every interaction an order of its own / one "
+         "interaction differs / two keys exchanged in some / one other order for all) and ~30% are handed over as plain dicts; "
+         "the key-order mode and plain/Interaction are part of the distinctness key")
 PLAN  = {"quick":    {"shards": 16, "cases": 32000,   "timeout": 600,  "budget_s": 75},
          "thorough": {"shards": 16, "cases": 1200000, "timeout": 3000, "budget_s": 780}}
 REQUIRED = ["oracle.vector.rewards.function", "oracle.vector.rewards.list", "oracle.vector.feedbacks",
@@ -41,6 +52,10 @@ REQUIRED = ["oracle.vector.rewards.function", "oracle.vector.rewards.list", "ora
             "oracle.collection.read", "oracle.collection.read.first", "oracle.collection.read.after-another", "oracle.collection.read.again",
             "oracle.collection.read.interleaved", "oracle.collection.read.raw", "oracle.collection.read.fin", "oracle.collection.read.iter",
             "oracle.collection.lookup_shared_table_would_overflow",
+            "oracle.keyorder.mixed.Repr", "oracle.keyorder.mixed.Flatten", "oracle.keyorder.mixed.Sparsify", "oracle.keyorder.mixed.Densify",
+            "oracle.keyorder.mixed.Noise", "oracle.keyorder.mixed.Batch", "oracle.keyorder.mixed.Unbatch", "oracle.keyorder.mixed.Finalize",
+            "oracle.keyorder.mixed.shortcuts-finalized", "oracle.keyorder.mixed.collection-read", "oracle.keyorder.non-constructor",
+            "layout.plain-dict",
             "changed.Repr", "changed.Flatten", "changed.Sparsify", "changed.Densify", "changed.Noise",
             "changed.Finalize", "changed.Batch"]
 ASSUMPTIONS = [
@@ -53,6 +68,7 @@ ASSUMPTIONS = [
     "reward functions are compared only where the original function is defined on the original action (e.g. HammingReward on a non-iterable action raises before any filter and is skipped, counted in skipped.undefined_before)",
     "membership of the logged action in the new action set is Python equality, the relation coba's own reward classes use",
     "over one environment a deterministic filter (everything but action Noise and hashing Densify) must re-represent equal actions equally and different actions differently; this is what makes 'the i-th action' the same action before and after",
+    "all interactions of one environment carry the same key set (only the insertion order varies, and dict vs Interaction subclass); keys are always looked up by name by the oracle",
     "for an empty (continuous) action set the i-th action is a numeric probe: R'(p) == R(p) for three probe values",
 ]
 
@@ -372,7 +388,50 @@ def gen_env(rng, ikind=None, akind=None, ns=0, akinds=AKINDS):
     if ikind in ("logged", "logged_plain"):
         has_p = rng.random() < .75     # a log either records propensities or it does not (same keys in every interaction)
         spec["logged"] = [{"i": rng.randrange(len(a)), "r": rng.choice(RVALS), "p": rng.choice([0.25, 0.5, 1, 0.125]) if has_p else None} for a in acts]
+    gen_layout(rng, spec)
     return spec
+
+KMODES = ["ctor", "ctor", "ctor", "ctor", "each-own", "each-own", "one-differs", "one-differs", "pair-swapped", "pair-swapped", "all-same-other"]
+
+def gen_layout(rng, spec):
+    """An interaction is a plain dict ("the only assumption made by Coba is that interactions are a dict"): the same keys
+    may have been inserted in another order than the Interaction constructors use, and in a different order in every
+    interaction of one environment (hand-built dicts filled on different code paths, records of a log).  kmode:
+      ctor            every interaction as its constructor fills it (the only layout coba's own tests use)
+      each-own        every interaction in an insertion order of its own
+      one-differs     one interaction (any position, also the first) in another order than the others
+      pair-swapped    in some interactions two keys exchanged their places
+      all-same-other  all interactions in one and the same order which is not the constructors' order
+    korder[j] = the key list of interaction j in insertion order (None = constructor order); plain = the interactions are
+    handed over as dict, not as an Interaction subclass."""
+    spec["plain"] = rng.random() < .3
+    mode = rng.choice(KMODES)
+    spec["kmode"] = mode
+    if mode == "ctor": spec["korder"] = None; return
+    keys = [list(it) for it in build(spec)]
+    n = len(keys)
+    def shuffled(ks):
+        for _ in range(8):
+            new = list(ks); rng.shuffle(new)
+            if new != ks: return new
+        return None
+    def swapped(ks):
+        if len(ks) < 2: return None
+        a, b = rng.sample(range(len(ks)), 2)
+        new = list(ks); new[a], new[b] = new[b], new[a]
+        return new
+    if mode == "each-own":
+        ko = [shuffled(k) if rng.random() < .85 else None for k in keys]
+    elif mode == "one-differs":
+        j = rng.randrange(n)
+        ko = [(shuffled(k) if rng.random() < .5 else swapped(k)) if i == j else None for i, k in enumerate(keys)]
+    elif mode == "pair-swapped":
+        j = rng.randrange(n)
+        ko = [swapped(k) if (i == j or rng.random() < .4) else None for i, k in enumerate(keys)]
+    else:
+        one = shuffled(keys[0])
+        ko = [list(one) if one and set(one) == set(k) else None for k in keys]
+    spec["korder"] = ko
 
 def gen_chain(rng, continuous, coll=False):
     st = {"batched": False, "continuous": continuous, "coll": coll}
@@ -474,8 +533,17 @@ def build(spec):
             if ik == "logged" and spec.get("copy_action", True) and not isinstance(a, (int, float, str)):
                 a = dec(enc_acts[lg["i"]])          # an equal but distinct object, as a log file reader would produce
             it = LoggedInteraction(ctx, a, lg["r"], lg["p"], **kw)
+        ko = spec["korder"][j] if spec.get("korder") else None
+        if ko:
+            items = [(k, it[k]) for k in ko if k in it] + [(k, v) for k, v in it.items() if k not in ko]
+            it.clear(); it.update(items)           # same object type, same entries, another insertion order
+        if spec.get("plain"): it = dict(it)
         out.append(it)
     return out
+
+def layout_of(rows):
+    """'ctor-like' (one insertion order for all), or 'mixed' (the interactions list their keys in different orders)"""
+    return "mixed" if len({tuple(r) for r in rows}) > 1 else "uniform"
 
 def make_filter(fs):
     from coba.environments import filters as F
@@ -796,7 +864,10 @@ def _stepwise(spec, chain, ctx, note, viol, tag=()):
     untouched originals.  Returns {ok, orig, final_rows, info}; ok = every step ran and no prefix violated."""
     orig = build(spec)
     info = {"logged_index": [lg["i"] for lg in spec["logged"]] if spec["ikind"] == "logged" else None, "changed": False, "dead": set()}
-    base_key = (spec["ikind"], spec["akind"], spec["rkind"], spec["fkind"], spec["vary"], spec.get("via"), spec["ckind"] in ("cat", "dense_cat", "sparse_cat")) + tuple(tag)
+    base_key = (spec["ikind"], spec["akind"], spec["rkind"], spec["fkind"], spec["vary"], spec.get("via"), spec["ckind"] in ("cat", "dense_cat", "sparse_cat"),
+                spec.get("kmode", "ctor"), bool(spec.get("plain"))) + tuple(tag)
+    if spec.get("plain"): note("layout.plain-dict")
+    note("layout.keys." + spec.get("kmode", "ctor"))
     cur = build(spec)
     prev_rows = cur
     final_rows = None
@@ -821,6 +892,11 @@ def _stepwise(spec, chain, ctx, note, viol, tag=()):
                          f"{fname(fs)} (step {step+1} of {[fname(x) for x in chain]}) raised {e!r} on {af} actions {p0.get('actions')!r}, {field} {p0.get(field)!r}"))
             ok = False; break
         rows = check_prefix(orig, cur, step, chain, prev_rows, note, viol, info)
+        # the layout of the interactions ENTERING this step: do they list their keys in different insertion orders?
+        if layout_of(prev_rows) == "mixed":
+            note("oracle.keyorder.mixed"); note("oracle.keyorder.mixed." + fs["f"])
+        elif spec.get("kmode") == "all-same-other" and step == 0:
+            note("oracle.keyorder.non-constructor")
         if ctx: ctx.case((base_key, tuple(fname(x) for x in chain[:step+1])), nontrivial=info["changed"])
         if info["changed"]: note("changed." + fs["f"])
         note("prefix." + fs["f"])
@@ -830,7 +906,53 @@ def _stepwise(spec, chain, ctx, note, viol, tag=()):
         final_rows = rows
     return {"ok": ok, "orig": orig, "final_rows": final_rows, "info": info}
 
+def _with_layout(spec, korder, plain):
+    """the same case with the constructors' key order (korder=False) and/or as Interaction objects (plain=False)"""
+    def one(ms):
+        ms = dict(ms)
+        if not korder: ms["korder"] = None; ms["kmode"] = "ctor"
+        if not plain:  ms["plain"] = False
+        return ms
+    if spec.get("collection"): return dict(spec, members=[one(ms) for ms in spec["members"]])
+    return one(spec)
+
+def _coarse(sig):
+    """a layout-triggered violation scrambles whole fields, so which reward type was hit and how exactly it surfaced
+    (TypeError / wrong value / other length) is incidental: keep filter and field, reduce the mode to raise | wrong"""
+    out = []
+    for p in sig.split("/"):
+        if p.startswith("mode="): p = "mode=raise" if p.startswith("mode=raise") else "mode=wrong"
+        elif p.split(":")[0] in ("rewards", "feedbacks"): p = p.split(":")[0]
+        out.append(p)
+    return "/".join(out)
+
 def check_case(spec, ctx=None):
+    """judges the case; when something is violated and the interactions were not laid out the way the Interaction
+    constructors lay them out, counterfactual runs (same case, constructor layout) decide -- for the signature only --
+    whether the layout is what triggers the violation"""
+    viol = _check_case(spec, ctx)
+    members = spec["members"] if spec.get("collection") else [spec]
+    has_ko = any(ms.get("korder") and any(ms["korder"]) for ms in members)
+    has_pl = any(ms.get("plain") for ms in members)
+    if not viol or not (has_ko or has_pl): return viol
+    def sigs(korder, plain):
+        try: return {s for s, _ in _check_case(_with_layout(spec, korder, plain), None)}
+        except Exception: return None
+    mixed = any(layout_of(build(ms)) == "mixed" for ms in members)
+    kq = "keys-in-different-orders" if mixed else "keys-not-in-constructor-order"
+    without_ko = sigs(False, True) if has_ko else None
+    without_pl = sigs(True, False) if has_pl else None
+    without_both = sigs(False, False) if (has_ko and has_pl) else None
+    out = []
+    for s, w in viol:
+        q = None
+        if without_ko is not None and s not in without_ko: q = kq
+        elif without_pl is not None and s not in without_pl: q = "plain-dict"
+        elif without_both is not None and s not in without_both: q = kq + "+plain-dict"
+        out.append((f"{_coarse(s)}/interactions:{q}" if q else s, w if not q else f"[holds when the interactions are laid out as the Interaction constructors do; here: key orders {[ms.get('korder') for ms in members]}, plain dict={has_pl}] {w}"))
+    return _dedup(out)
+
+def _check_case(spec, ctx=None):
     from coba.environments import Environments
     from coba.pipes import Pipes
     if spec.get("collection"): return check_collection(spec, ctx)
@@ -867,6 +989,7 @@ def check_case(spec, ctx=None):
             before = len(viol)
             check_prefix(orig, fin, len(fchain) - 1, fchain, final_rows, note, viol, info)
             note("oracle.shortcuts.finalized")
+            if layout_of(final_rows) == "mixed": note("oracle.keyorder.mixed.shortcuts-finalized")
             if info["changed"]: note("changed.Finalize")
         except Exception as e:
             p0 = final_rows[0] if final_rows else {}
@@ -971,6 +1094,7 @@ def check_collection(spec, ctx=None):
         note("oracle.collection.read")
         note("oracle.collection.read." + j.get("detail", j["where"]).replace(" ", "-"))
         note("oracle.collection.read." + j["mode"])
+        if layout_of(r["orig"]) == "mixed": note("oracle.keyorder.mixed.collection-read")
         if tight: note("oracle.collection.lookup_shared_table_would_overflow")
         any_changed = any_changed or info["changed"]
         for sig, what in mine:
